@@ -63,11 +63,19 @@ fn ctr_opd(r: &str) -> (Opd, ImmKind) {
 struct Builder {
     next_label: usize,
     prefix: String,
+    /// names of procedures that labels may share (labels and procedures live in separate name
+    /// spaces: `jmp p_0` goes to the label, `call p_0` to the procedure)
+    alias: Vec<String>,
 }
 
 impl Builder {
     fn fresh(&mut self) -> String {
         self.next_label += 1;
+        if self.next_label % 3 == 2 {
+            if let Some(a) = self.alias.pop() {
+                return a;
+            }
+        }
         format!("{}{}", self.prefix, self.next_label)
     }
 }
@@ -181,7 +189,9 @@ fn build_body(toks: &[Tok], b: &mut Builder, nprocs_callable: usize, top_level: 
 
 pub fn build_program(g: &GenCfg) -> Program {
     let mut code: Vec<Item> = Vec::new();
-    let mut b = Builder { next_label: 0, prefix: "L".into() };
+    // one program in four reuses procedure names as label names
+    let alias: Vec<String> = if g.max_depth == 2 && g.trailing_label { (0..g.procs.len()).map(|i| format!("p_{}", i)).collect() } else { vec![] };
+    let mut b = Builder { next_label: 0, prefix: "L".into(), alias };
     let mut data: Vec<DataDecl> = Vec::new();
     if g.with_data {
         data.push(DataDecl::Item { label: Some("d_0".into()), word: false, kind: DataKind::Str("data!".into()) });
